@@ -14,7 +14,7 @@ PROP = 'C02'
 THEOREMS = ['C02_encoder_in_spec', 'C02_decoder_accepts_spec', 'C02_layout_sound', 'C02_audit_accepts_spec', 'C02_spec_longs',
             'C02_spec_record', 'C02_spec_array', 'C02_spec_union', 'C02_lax_layout', 'C02_audit_example',
             'C02_audit_only_spec_refuted', 'C02_decoder_padding_invariant', 'C02_padded_long_decodes', 'C02_padding_example',
-            'C02_padded_long_accepted_outside_spec']
+            'C02_padded_long_accepted_outside_spec', 'C02_decode_head_padding_invariant', 'C02_head_padding_example']
 CFG = '(cfg 536870912 56 80)'
 RULE = ('(schema, value) pairs as in C01 (all primitive / logical / named / recursive kinds); per pair the '
         'implementation encoding and up to 6 specification-legal layouts from the certified generator: block '
@@ -222,7 +222,7 @@ def gen_overlong(tier, seed):
         return -v - 1 if r.chance(1, 2) else v
     for i in range(n):
         r = rng.fork(i)
-        kind = r.choice(['long', 'long', 'int', 'array', 'string'])
+        kind = r.choice(['long', 'long', 'int', 'array', 'string', 'union', 'enum', 'bytes'])
         if kind in ('long', 'int'):
             b = _varint(val(r, 64 if kind == 'long' else 32))
             out.append(('"%s"' % kind, bytes(_padded(b, r.range(len(b) + 1, 11))).hex(), bytes(b).hex()))
@@ -233,6 +233,18 @@ def gen_overlong(tier, seed):
             mini = cnt + sum(items, []) + [0]
             if pad != mini:
                 out.append(('{"type":"array","items":"long"}', bytes(pad).hex(), bytes(mini).hex()))
+        elif kind == 'union':      # branch index padded, then the branch's datum (C02_decode_head_padding_invariant)
+            br = r.range(0, 2)
+            tail = [[], _varint(val(r, 64)), [2, 120]][br]
+            ix = _varint(br)
+            out.append(('["null","long","string"]', bytes(_padded(ix, r.range(2, 11)) + tail).hex(), bytes(ix + tail).hex()))
+        elif kind == 'enum':
+            ix = _varint(r.range(0, 2))
+            out.append(('{"type":"enum","name":"e","symbols":["a","b","c"]}', bytes(_padded(ix, r.range(2, 11))).hex(), bytes(ix).hex()))
+        elif kind == 'bytes':
+            t = r.bytes(r.range(0, 6))
+            ln = _varint(len(t))
+            out.append(('"bytes"', bytes(_padded(ln, r.range(2, 11)) + list(t)).hex(), bytes(ln + list(t)).hex()))
         else:
             t = [r.range(97, 122) for _ in range(r.range(0, 5))]
             ln = _varint(len(t))
